@@ -94,6 +94,32 @@ def c16(cx):
         if any(v != hx for v in vals):
             cx.violations.append({'kind': 'byte-literal', 'program': str(forms), 'prop': 'C16', 'field': 'byte', 'where': hx,
                                   'detail': f"forms of {hx} parse to {vals}", 'src': str(forms), 'env': None})
+    # quoted byte literals with escapes: the assembler ends a literal at the first quote that does not directly follow a
+    # backslash; everything in between (spaces, `//`, `;`, escaped quotes and backslashes) belongs to the literal
+    pieces = ['a', 'b', 'C:', ' ', '//', ';', '\\\\', '\\"', '\\n', '\\x41', '\\\\\\"', 'q q']
+    stats['quoted_literals'] = 0
+    for _ in range(150 if cx.quick() else 2000):
+        def lit():
+            while True:
+                body = ''.join(rng.choice(pieces) for _ in range(rng.randrange(1, 6)))
+                if not body.endswith('\\'): return '"' + body + '"'
+        l1, l2 = lit(), lit()
+        tail = rng.choice(['', ' // c', ' // "c" d', '   //x', '\t// a \\" b'])
+        cases = [(f'byte {l1}', 'Byte'), (f'pushbytes {l1}', 'PushBytes'), (f'pushbytess {l1} 0x02 {l2}', 'PushBytess'),
+                 (f'bytecblock {l1} 0x01', 'Bytecblock'), (f'pushbytess 0x01 {l1}', 'PushBytess')]
+        for text, cls in cases:
+            stats['quoted_literals'] += 1
+            for v in (text + tail, '  ' + text + tail):
+                try:
+                    ins, _, _ = quiet(parse_line, v)
+                    got = (type(ins).__name__, str(ins))
+                    back, _, _ = quiet(parse_line, str(ins))
+                    rt = (type(back).__name__, str(back))
+                except BaseException as e:
+                    got = rt = ('EXC', type(e).__name__)
+                if got != (cls, text) or rt != got:
+                    cx.violations.append({'kind': 'quoted-literal', 'program': v, 'prop': 'C16', 'field': 'byte', 'where': text,
+                                          'detail': f"{v!r} parses to {got} (printed form re-parses to {rt}); the assembler's tokens give {(cls, text)}", 'src': v, 'env': None})
     # recorded line numbers are the 1-based source lines, whatever blank / comment lines surround the instructions
     for k in range(40 if cx.quick() else 400):
         n = rng.randrange(3, 15)
@@ -131,7 +157,7 @@ def c16(cx):
         bad = True
     if bad:
         cx.known_seen['F19'] = f"`method \"sig\"` prints as {str(f19)!r} (quotes dropped), which does not parse back"
-    cx.evaluations += stats['variants'] + stats['int_spellings'] + stats['byte_forms'] + stats['programs']
+    cx.evaluations += stats['variants'] + stats['int_spellings'] + stats['byte_forms'] + stats['programs'] + stats['quoted_literals']
     for l in pool[:3000]:
         cx.distinct.add(l.split()[0] if l.split() else l)
     cx.samples += [{'line': pool[3], 'variants': list(variants(pool[3]))}, {'int spellings of 255': ['255', '0xff', '0377']}]
